@@ -4,7 +4,7 @@ ranks / constness, static helpers, callees), so that any emission order that dep
 as differing text between interpreters (C18), and so that every such artefact is also compiled and run (C02)."""
 from __future__ import annotations
 
-from exo import proc, config, DRAM
+from exo import proc, instr, config, DRAM
 from exo.libs.externs import relu, select, fmaxf, sin, sqrt
 from exo.libs.memories import DRAM_STACK, DRAM_STATIC
 
@@ -100,7 +100,7 @@ def dl_mems(n: size, x: f32[n], y: f32[n]):
     assert n <= 8
     t1: f32[8] @ DRAM_STACK
     t2: f32[8] @ DRAM_STATIC
-    t3: f32[n] @ DRAM_STACK
+    t3: f32[8] @ DRAM_STACK
     t4: f32[n] @ DRAM
     for i in seq(0, n):
         t1[i] = x[i]
@@ -129,6 +129,30 @@ def dl_helpers(n: size, k: index, x: f32[4 * n + 8], y: i8[n]):
         y[i] = x[i]
 
 
-PROCS = [dl_relu32, dl_relu64, dl_relu8, dl_relu_i32, dl_sel32, dl_sel64, dl_math, dl_w1, dl_w2, dl_w3, dl_mems,
+# instructions with their own global C text (several distinct blocks in one library)
+@instr("dl_add1({d_data}, {s_data});", c_global="static void dl_add1(float *d, const float *s) { d[0] = s[0] + 1.0f; }")
+def dl_i_add1(d: [f32][1], s: [f32][1]):
+    d[0] = s[0] + 1.0
+
+
+@instr("dl_mul2({d_data}, {s_data});", c_global="static void dl_mul2(float *d, const float *s) { d[0] = s[0] * 2.0f; }")
+def dl_i_mul2(d: [f32][1], s: [f32][1]):
+    d[0] = s[0] * 2.0
+
+
+@instr("dl_neg({d_data}, {s_data});", c_global="static void dl_neg(float *d, const float *s) { d[0] = -s[0]; }")
+def dl_i_neg(d: [f32][1], s: [f32][1]):
+    d[0] = -s[0]
+
+
+@proc
+def dl_instrs(n: size, x: f32[n], y: f32[n]):
+    for i in seq(0, n):
+        dl_i_add1(y[i:i + 1], x[i:i + 1])
+        dl_i_mul2(x[i:i + 1], y[i:i + 1])
+        dl_i_neg(y[i:i + 1], x[i:i + 1])
+
+
+PROCS = [dl_instrs, dl_relu32, dl_relu64, dl_relu8, dl_relu_i32, dl_sel32, dl_sel64, dl_math, dl_w1, dl_w2, dl_w3, dl_mems,
          dl_cfgs, dl_helpers]
 CONFIGS = [LibCfgA, LibCfgB, LibCfgC]
